@@ -1,0 +1,42 @@
+//go:build verif
+
+// Contracts for package sessions, checked by /verif (ssovc). Comment-only file.
+package sessions
+
+// Ghost view of a response (keyed by the ResponseWriter):
+//   $sessionCookie  0 = untouched, 1 = set (SaveSession succeeded), 2 = cleared
+//   $saved          the session object most recently sealed into the session cookie
+//   $csrfCookie     0 = untouched, 1 = set, 2 = cleared ; $csrfValue the value set
+//@ type SessionStore
+//@   ghost field $sessionCookie int
+//@   ghost field $saved ref
+//@   ghost field $csrfCookie int
+//@   ghost field $csrfValue string
+
+//@ interface SessionStore.LoadSession(req *http.Request) (*SessionState, error)
+//@   modifies nothing
+//@   fresh result.0
+//@   ensures no_session_on_error: result.1 != nil ==> result.0 == nil && (result.1 == http.ErrNoCookie || result.1 == ErrInvalidSession)
+//@   ensures session_on_success: result.1 == nil ==> result.0 != nil
+
+//@ interface SessionStore.SaveSession(rw http.ResponseWriter, req *http.Request, s *SessionState) error
+//@   modifies rw.$sessionCookie, rw.$saved
+//@   ensures saved: result == nil ==> rw.$sessionCookie == 1 && rw.$saved == s
+//@   ensures unsaved: result != nil ==> rw.$sessionCookie == old(rw.$sessionCookie) && rw.$saved == old(rw.$saved)
+
+//@ interface SessionStore.ClearSession(rw http.ResponseWriter, req *http.Request)
+//@   modifies rw.$sessionCookie
+//@   ensures cleared: rw.$sessionCookie == 2
+
+//@ interface CSRFStore.SetCSRF(rw http.ResponseWriter, req *http.Request, val string)
+//@   modifies rw.$csrfCookie, rw.$csrfValue
+//@   ensures rw.$csrfCookie == 1 && rw.$csrfValue == val
+
+//@ interface CSRFStore.GetCSRF(req *http.Request) (*http.Cookie, error)
+//@   modifies nothing
+//@   ensures result.1 == nil ==> result.0 != nil
+//@   ensures result.1 == nil ==> result.0.Value == csrfCookieOf(req)
+
+//@ interface CSRFStore.ClearCSRF(rw http.ResponseWriter, req *http.Request)
+//@   modifies rw.$csrfCookie
+//@   ensures rw.$csrfCookie == 2
